@@ -398,7 +398,83 @@ def check_run_two_transitions(cfg, acc):
     acc.outcome(("run2", F["stager"], F["mix"], cfg["n_warm"], cfg["n_main"], cfg["n_chain"]))
 
 
+def check_interrupted(cfg, acc):
+    """A warm-up stage interrupted after k adaptation updates, then the sampler is re-used for a
+    main-only call: the main stage must use the value FINALIZED by that (last, updated) warm-up
+    stage - not the raw last iterate, not the initial default."""
+    import logging
+    import mici
+
+    log = []
+    A = np.array([[1.0, 0.3], [0.3, 0.7]])
+    system = mici.systems.EuclideanMetricSystem(
+        lambda q: 0.5 * q @ A @ q + 0.1 * np.sum(q**4),
+        grad_neg_log_dens=lambda q: A @ q + 0.4 * q**3, metric=np.array([1.0, 2.0]))
+    integ = mici.integrators.LeapfrogIntegrator(system, step_size=0.123)
+    sampler = mici.samplers.StaticMetropolisHMC(system, integ,
+                                                np.random.default_rng(99 + cfg["seed"]), n_step=2)
+    inner = sampler.transitions["integration_transition"]
+    orig_sample = inner.sample
+    calls = {"n": 0}
+
+    def sample(state, r):
+        log.append(("sample", float(integ.step_size)))
+        return orig_sample(state, r)
+
+    inner.sample = sample
+
+    def trace(state):
+        calls["n"] += 1
+        # call 1 is made while the trace arrays are set up (outside any iteration)
+        if calls["n"] == cfg["k"] + 1:
+            raise KeyboardInterrupt
+        return {"pos": state.pos}
+
+    adapters = make_recording_adapters(log, ("step",))
+    n_chain = cfg["n_chain"]
+    init = [np.array([0.3 * (c + 1), -0.2 * (c + 1)]) for c in range(n_chain)]
+    F = {"stager": "warmup", "mix": "step"}
+    acc.count("evaluations")
+    logging.disable(logging.CRITICAL)
+    try:
+        out = sampler.sample_chains(cfg["n_warm"], 2, init, adapters=adapters, n_process=1,
+                                    display_progress=False, trace_funcs=[trace],
+                                    trace_warm_up=True)
+        n_before = len(log)
+        updates = sum(1 for e in log if e[0] == "update")
+        finals = [e for e in log if e[0] == "finalize"]
+        calls["n"] = -10**9
+        sampler.sample_chains(0, 2, out.final_states, adapters=[], n_process=1,
+                              display_progress=False, trace_funcs=[trace])
+    except BaseException as e:  # noqa: BLE001
+        acc.violation(driver="interrupted", config=cfg,
+                      fields={**F, "what": "raises:" + type(e).__name__},
+                      kind="adaptation_confinement", observed=repr(e)[:200], expected="returns")
+        return
+    finally:
+        logging.disable(logging.NOTSET)
+    used = sorted({e[1] for e in log[n_before:] if e[0] == "sample"})
+    if updates >= 1:
+        if not finals:
+            acc.violation(driver="interrupted", config=cfg,
+                          fields={**F, "what": "interrupted_stage_with_updates_never_finalized"},
+                          kind="adaptation_confinement",
+                          observed={"updates": updates, "main_stage_step_sizes": used},
+                          expected="finalize after every stage that performed updates")
+            return
+        if used != [finals[-1][2]]:
+            acc.violation(driver="interrupted", config=cfg,
+                          fields={**F, "what": "resumed_main_stage_uses_unfinalized_value"},
+                          kind="adaptation_confinement", observed=used, expected=[finals[-1][2]])
+            return
+    acc.outcome(("interrupted", cfg["k"], n_chain, updates, tuple(used)))
+
+
 def check_config(cfg, acc):
+    if cfg["mode"] == "interrupted":
+        check_interrupted(cfg, acc)
+        acc.count("cases")
+        return
     if cfg["mode"] == "run2":
         check_run_two_transitions(cfg, acc)
         acc.count("cases")
@@ -455,6 +531,11 @@ def configs(tier, seed):
                     cfgs.append({"mode": "run2", "stager": stager, "mix_first": mix_first,
                                  "mix_second": mix_second, "n_warm": n_warm, "n_main": 2,
                                  "n_chain": n_chain, "seed": seed})
+    # a warm-up stage interrupted after k iterations, sampler re-used for the main stage
+    for n_chain in (1, 2):
+        for k in range(1, 7):
+            cfgs.append({"mode": "interrupted", "n_warm": 6, "k": k, "n_chain": n_chain,
+                         "seed": seed})
     # an adapted transition that reports no statistics (metric adapters do not need any)
     for mix_second in (("var",), ("covar",)):
         for n_warm in (2, 5):
